@@ -28,10 +28,10 @@ func init() {
 			"Types comparison or when Types is empty. (mirror) policyIDToEndpointIDs and endpointIDToPolicyIDs are always updated together with swapped arguments, and the per-endpoint filter keeps a policy only under " +
 			"endpointIDToPolicyIDs.Contains(endpoint, policy). (sortfeeds) sortedTierData is assigned only from PolicySorter.Sorted(); the per-endpoint lists are appended only inside range loops over sortedTierData / " +
 			"OrderedPolicies; Sorted() fills its slices only inside btree Ascend callbacks; OrderedPolicies has no other writer. " +
-			"(keysync) Wherever a *model.Tier value is at hand and a tierInfoKey is (re-)inserted into the sorted-tier tree, each mutable key field of the TierInfo (Order, Valid; derived from the tierInfoKey struct) has been stored from its source (the Tier's same-named field, or a constant) on the path, or the branch conditions crossed imply that it already equals the source (same pointer, equal pointees, or both nil) — so no update of a tier's order, including value -> nil, can be ignored. " +
+			"(keysync) Wherever a *model.Tier value is at hand and a tierInfoKey is (re-)inserted into the sorted-tier tree, each mutable key field of the TierInfo (Order, Valid; derived from the tierInfoKey struct) has been stored from its source (the Tier's same-named field, or a constant) on the path, or the branch conditions crossed imply that it already equals the source (same pointer, equal pointees, or both nil) — so no update of a tier's order, including value -> nil, can be ignored. The discipline is followed through felix/calc helpers: an insertion made by a helper that is handed the Tier value is judged in that helper (falling back to \"every caller is in sync before the call\"), a helper that stores the field counts as a store only if all of its own entry-to-return paths store it or imply equality (parameters carrying the field's / source's value are mapped from the call's arguments), and a condition computed by a helper is evaluated from the helper's paths. " +
 			"(inheritreg) The plumbing that makes inherited labels reach an endpoint: a parent (profile) entry is deleted from the registry only when it has neither children nor labels; when an item's parents are updated the item is unregistered from / the registry entry dropped for an old parent only if that parent is not among the new parents (membership test with the same projection on both sides) or after re-registration; the item's parent list only holds registry objects. " +
 			"(mirror/filter, sortfeeds/range, sortfeeds/owners) locate the per-endpoint filter loop by a backward value-flow slice from the []TierInfo argument of OnEndpointTierUpdate (appends, local structs, results of felix/calc helpers, local closures), so the loop may live in any helper; the endpoint being sent is the callback's first argument mapped through helper parameters, and the Contains test may sit in a predicate helper. " +
-			"(treekey) Every item handed to Delete on a sorted btree of PolicySorter is rebuilt from what is stored — PolKV.Value is (a copy of) the same tier's Policies[same key], every tierInfoKey field is read from the same-named field of one TierInfo before that field is reassigned — and every item handed to ReplaceOrInsert is what is stored from then on (PolKV{k,v} accompanied by Policies[k] = *v on every path; tierInfoKey fields read after their last reassignment): btree.Delete locates by the comparator, so an item rebuilt from the incoming update misses whenever the update changes the sort key and the policy/tier stays listed twice. " +
+			"(treekey) Every item handed to Delete on a sorted btree of PolicySorter is rebuilt from what is stored — PolKV.Value is (a copy of) the same tier's Policies[same key], every tierInfoKey field is read from the same-named field of one TierInfo before that field is reassigned — and every item handed to ReplaceOrInsert is what is stored from then on (PolKV{k,v} accompanied by Policies[k] = *v on every path; tierInfoKey fields read after their last reassignment; when the tree operation sits in a helper that is handed the TierInfo, the ordering is judged at each of the helper's call sites): btree.Delete locates by the comparator, so an item rebuilt from the incoming update misses whenever the update changes the sort key and the policy/tier stays listed twice. " +
 			"(alternate, shared with C07) The label index reports match-started / match-stopped strictly alternating per (selector, endpoint): each callback is guarded by (non-)membership in a match map and paired with Add/Discard on it and its mirror, and a match-map entry is dropped only when its own set is empty — otherwise an endpoint deletion cannot find the matches to stop and policies stay attached to (and active for) endpoints they no longer match.",
 		NotDecided: "That selector evaluation picks exactly the matching endpoints (C07); antisymmetry/transitivity of the comparators beyond the direction of each comparison; nil-Order handling of TierLess; that only policies applying to a local endpoint are sent (C02 families).",
 		Assumptions: []string{
@@ -1330,30 +1330,169 @@ func c03RecvTypeName(f *ssa.Function) string {
 // the field already equals the source (same pointer, equal pointees, or both
 // nil).  A bypass that looks at one side only ("new order is non-nil") lets an
 // update through without refreshing the key, and the tier keeps a stale rank.
-func c03KeySync(c *Ctx, p *Prog) {
-	keyTN, _ := p.LookupObj(calcPkg, "tierInfoKey").(*types.TypeName)
-	tiTN, _ := p.LookupObj(calcPkg, "TierInfo").(*types.TypeName)
-	tierTN, _ := p.LookupExt("libcalico-go/lib/backend/model", "Tier").(*types.TypeName)
-	if keyTN == nil || tiTN == nil || tierTN == nil {
-		c.Lost("calc.tierInfoKey / calc.TierInfo / model.Tier")
+//
+// The discipline is followed through felix/calc helpers in every direction a
+// behaviour-preserving split can take:
+//   - an insertion made by a helper that is handed the Tier value is judged
+//     inside that helper (it has the Tier value at hand itself); if the helper
+//     does not synchronise the field, every caller must have done so before the
+//     call (the guard/store lifted to the call sites);
+//   - a helper that stores the field counts as a store only if its own paths
+//     from entry to return all store it or imply field == source (its summary is
+//     computed with the same decision procedure; parameters that carry the
+//     field's / the source's value are mapped from the call's arguments);
+//   - a branch condition computed by a helper (`if orderChanged(ti, t)`) is
+//     evaluated from the helper's paths and results.
+type c03KSWorld struct {
+	p                   *Prog
+	keyTN, tiTN, tierTN *types.TypeName
+	tiST, tierST        *types.Struct
+}
+
+func (w *c03KSWorld) inCalc(sf *ssa.Function) bool {
+	return sf != nil && sf.Blocks != nil && sf.Pkg != nil && strings.HasSuffix(sf.Pkg.Pkg.Path(), "/"+calcPkg)
+}
+
+func (w *c03KSWorld) isPtrTo(t types.Type, tn *types.TypeName) bool {
+	pt, ok := types.Unalias(t).(*types.Pointer)
+	return ok && types.Identical(types.Unalias(pt.Elem()), tn.Type())
+}
+
+func (w *c03KSWorld) isTierPtr(t types.Type) bool { return w.isPtrTo(t, w.tierTN) }
+
+func (w *c03KSWorld) isKeyInsert(cc *ssa.CallCommon) bool {
+	f := calleeOf(cc)
+	if f == nil || f.Pkg() == nil || f.Pkg().Path() != c03BtreePkg || f.Name() != "ReplaceOrInsert" || len(cc.Args) < 1 {
+		return false
 	}
-	tiST, _ := tiTN.Type().Underlying().(*types.Struct)
-	tierST, _ := tierTN.Type().Underlying().(*types.Struct)
-	if tiST == nil || tierST == nil {
-		c.Lost("TierInfo / model.Tier are not structs")
+	pt, ok := types.Unalias(cc.Args[0].Type()).(*types.Pointer)
+	if !ok {
+		return false
 	}
-	fieldNamed := func(st *types.Struct, name string) *types.Var {
-		for i := 0; i < st.NumFields(); i++ {
-			if st.Field(i).Name() == name {
-				return st.Field(i)
+	n, ok := types.Unalias(pt.Elem()).(*types.Named)
+	return ok && n.TypeArgs().Len() == 1 && types.Identical(types.Unalias(n.TypeArgs().At(0)), w.keyTN.Type())
+}
+
+// insertsVia: sf is a felix/calc helper that performs the insertion (itself or up
+// to two calls further down).
+func (w *c03KSWorld) insertsVia(sf *ssa.Function, depth int) bool {
+	if !w.inCalc(sf) || depth > 3 {
+		return false
+	}
+	found := false
+	allInstrs(sf, true, func(_ *ssa.Function, in ssa.Instruction) {
+		if ci, ok := in.(ssa.CallInstruction); ok && !found {
+			if w.isKeyInsert(ci.Common()) || w.insertsVia(calleeFn(ci.Common()), depth+1) {
+				found = true
 			}
 		}
-		return nil
+	})
+	return found
+}
+
+// storesVia: sf is a felix/calc helper that stores TierInfo.<fv> of an existing object.
+func (w *c03KSWorld) storesVia(sf *ssa.Function, fv *types.Var, depth int) bool {
+	if !w.inCalc(sf) || depth > 3 {
+		return false
+	}
+	found := false
+	allInstrs(sf, true, func(_ *ssa.Function, in ssa.Instruction) {
+		if found {
+			return
+		}
+		switch x := in.(type) {
+		case *ssa.Store:
+			if fa, ok := x.Addr.(*ssa.FieldAddr); ok && structField(fa.X.Type(), fa.Field) == fv {
+				if _, fresh := fa.X.(*ssa.Alloc); !fresh {
+					found = true
+				}
+			}
+		case ssa.CallInstruction:
+			if w.storesVia(calleeFn(x.Common()), fv, depth+1) {
+				found = true
+			}
+		}
+	})
+	return found
+}
+
+// handsTier: the call passes a *model.Tier value to a *model.Tier parameter of h.
+func (w *c03KSWorld) handsTier(cc *ssa.CallCommon, h *ssa.Function) bool {
+	for i, a := range cc.Args {
+		if i < len(h.Params) && w.isTierPtr(a.Type()) && w.isTierPtr(h.Params[i].Type()) {
+			return true
+		}
+	}
+	return false
+}
+
+func c03FieldNamed(st *types.Struct, name string) *types.Var {
+	for i := 0; i < st.NumFields(); i++ {
+		if st.Field(i).Name() == name {
+			return st.Field(i)
+		}
+	}
+	return nil
+}
+
+// c03KSVerdict is the outcome of judging one function for one field.
+type c03KSVerdict struct {
+	problem string
+	never   bool     // the field is never stored before the insertion(s)
+	bad     []string // unsynchronised ways an insertion is reached
+	und     []string
+	srcDesc string
+	notes   []string // helpers that store the field but not on all of their paths
+}
+
+func (v c03KSVerdict) clean() bool {
+	return v.problem == "" && !v.never && len(v.bad) == 0 && len(v.und) == 0
+}
+
+func (w *c03KSWorld) judge(fn *ssa.Function, targets []ssa.Instruction, fv *types.Var) c03KSVerdict {
+	ks := w.newKS(fn, fv, 0)
+	ks.scan(targets)
+	v := c03KSVerdict{problem: ks.problem, srcDesc: ks.srcDesc, notes: ks.notes}
+	if v.problem != "" {
+		return v
+	}
+	if len(ks.syncs) == 0 {
+		v.never = true
+		return v
+	}
+	for _, t := range targets {
+		b, u := ks.check(t)
+		what := "insertion"
+		if ci, ok := t.(ssa.CallInstruction); ok && !w.isKeyInsert(ci.Common()) {
+			what = "call of " + fnName(calleeFn(ci.Common()))
+		}
+		for _, s := range b {
+			v.bad = append(v.bad, fmt.Sprintf("%s at %s reached %s", what, w.p.Pos(t.Pos()), s))
+		}
+		for _, s := range u {
+			v.und = append(v.und, fmt.Sprintf("%s at %s: %s", what, w.p.Pos(t.Pos()), s))
+		}
+	}
+	return v
+}
+
+func c03KeySync(c *Ctx, p *Prog) {
+	w := &c03KSWorld{p: p}
+	w.keyTN, _ = p.LookupObj(calcPkg, "tierInfoKey").(*types.TypeName)
+	w.tiTN, _ = p.LookupObj(calcPkg, "TierInfo").(*types.TypeName)
+	w.tierTN, _ = p.LookupExt("libcalico-go/lib/backend/model", "Tier").(*types.TypeName)
+	if w.keyTN == nil || w.tiTN == nil || w.tierTN == nil {
+		c.Lost("calc.tierInfoKey / calc.TierInfo / model.Tier")
+	}
+	w.tiST, _ = w.tiTN.Type().Underlying().(*types.Struct)
+	w.tierST, _ = w.tierTN.Type().Underlying().(*types.Struct)
+	if w.tiST == nil || w.tierST == nil {
+		c.Lost("TierInfo / model.Tier are not structs")
 	}
 	// key fields and the TierInfo fields they mirror
 	var keyFields []*types.Var
-	for _, name := range structFieldNames(keyTN.Type(), false) {
-		fv := fieldNamed(tiST, name)
+	for _, name := range structFieldNames(w.keyTN.Type(), false) {
+		fv := c03FieldNamed(w.tiST, name)
 		if fv == nil {
 			c.Lost("tierInfoKey.%s has no TierInfo field of the same name to be copied from", name)
 		}
@@ -1377,103 +1516,88 @@ func c03KeySync(c *Ctx, p *Prog) {
 			mutable[structField(fa.X.Type(), fa.Field)] = true
 		})
 	}
-	isTierPtr := func(t types.Type) bool {
-		pt, ok := types.Unalias(t).(*types.Pointer)
-		return ok && types.Identical(types.Unalias(pt.Elem()), tierTN.Type())
-	}
-	isKeyInsert := func(cc *ssa.CallCommon) bool {
-		f := calleeOf(cc)
-		if f == nil || f.Pkg() == nil || f.Pkg().Path() != c03BtreePkg || f.Name() != "ReplaceOrInsert" || len(cc.Args) < 1 {
-			return false
-		}
-		pt, ok := types.Unalias(cc.Args[0].Type()).(*types.Pointer)
-		if !ok {
-			return false
-		}
-		n, ok := types.Unalias(pt.Elem()).(*types.Named)
-		return ok && n.TypeArgs().Len() == 1 && types.Identical(types.Unalias(n.TypeArgs().At(0)), keyTN.Type())
-	}
-	// inserts: the insertion itself, or a call of a felix/calc helper that performs it
-	var insertsVia func(sf *ssa.Function, depth int) bool
-	insertsVia = func(sf *ssa.Function, depth int) bool {
-		if sf == nil || sf.Blocks == nil || depth > 2 || sf.Pkg == nil || !strings.HasSuffix(sf.Pkg.Pkg.Path(), "/"+calcPkg) {
-			return false
-		}
-		found := false
-		allInstrs(sf, true, func(_ *ssa.Function, in ssa.Instruction) {
-			if ci, ok := in.(ssa.CallInstruction); ok {
-				if isKeyInsert(ci.Common()) || insertsVia(calleeFn(ci.Common()), depth+1) {
-					found = true
-				}
-			}
-		})
-		return found
-	}
-	// storesVia: a call of a felix/calc helper that stores TierInfo.<fv> of an existing object
-	var storesVia func(sf *ssa.Function, fv *types.Var, depth int) bool
-	storesVia = func(sf *ssa.Function, fv *types.Var, depth int) bool {
-		if sf == nil || sf.Blocks == nil || depth > 2 || sf.Pkg == nil || !strings.HasSuffix(sf.Pkg.Pkg.Path(), "/"+calcPkg) {
-			return false
-		}
-		found := false
-		allInstrs(sf, true, func(_ *ssa.Function, in ssa.Instruction) {
-			switch x := in.(type) {
-			case *ssa.Store:
-				if fa, ok := x.Addr.(*ssa.FieldAddr); ok && structField(fa.X.Type(), fa.Field) == fv {
-					if _, fresh := fa.X.(*ssa.Alloc); !fresh {
-						found = true
-					}
-				}
-			case ssa.CallInstruction:
-				if storesVia(calleeFn(x.Common()), fv, depth+1) {
-					found = true
-				}
-			}
-		})
-		return found
-	}
 
-	n := 0
 	var fns []*ssa.Function
 	for _, f := range p.AllFuncs() {
-		if f.Blocks != nil && f.Pkg != nil && strings.HasSuffix(f.Pkg.Pkg.Path(), "/"+calcPkg) {
+		if w.inCalc(f) {
 			fns = append(fns, f)
 		}
 	}
 	sort.Slice(fns, func(i, j int) bool { return fnName(fns[i]) < fnName(fns[j]) })
+	// own[fn]: insertions (or calls of inserting helpers that are not handed the
+	// Tier value) reached with a Tier value at hand; incoming[h]: calls that hand
+	// the Tier value on to the inserting helper h — judged inside h.
+	own := map[*ssa.Function][]ssa.Instruction{}
+	incoming := map[*ssa.Function][]ssa.CallInstruction{}
 	for _, fn := range fns {
-		// Tier values at hand
 		var tierVals []ssa.Value
 		for _, par := range fn.Params {
-			if isTierPtr(par.Type()) {
+			if w.isTierPtr(par.Type()) {
 				tierVals = append(tierVals, par)
 			}
 		}
 		allInstrs(fn, false, func(_ *ssa.Function, in ssa.Instruction) {
-			if ta, ok := in.(*ssa.TypeAssert); ok && isTierPtr(ta.AssertedType) {
+			if ta, ok := in.(*ssa.TypeAssert); ok && w.isTierPtr(ta.AssertedType) {
 				tierVals = append(tierVals, ta)
 			}
 		})
 		if len(tierVals) == 0 {
 			continue
 		}
-		var targets []ssa.Instruction
-		allInstrs(fn, false, func(_ *ssa.Function, in ssa.Instruction) {
-			ci, ok := in.(ssa.CallInstruction)
-			if !ok || !(isKeyInsert(ci.Common()) || insertsVia(calleeFn(ci.Common()), 1)) {
-				return
-			}
+		atHand := func(in ssa.Instruction) bool {
 			for _, tv := range tierVals {
 				if _, isPar := tv.(*ssa.Parameter); isPar {
-					targets = append(targets, in)
-					return
+					return true
 				}
 				if ti, ok := tv.(ssa.Instruction); ok && instrDominates(ti, in) {
-					targets = append(targets, in)
-					return
+					return true
 				}
 			}
+			return false
+		}
+		allInstrs(fn, false, func(_ *ssa.Function, in ssa.Instruction) {
+			ci, ok := in.(ssa.CallInstruction)
+			if !ok {
+				return
+			}
+			direct := w.isKeyInsert(ci.Common())
+			h := calleeFn(ci.Common())
+			if !direct && !w.insertsVia(h, 1) {
+				return
+			}
+			if !atHand(in) {
+				return
+			}
+			if !direct && w.handsTier(ci.Common(), h) {
+				incoming[h] = append(incoming[h], ci)
+				return
+			}
+			own[fn] = append(own[fn], in)
 		})
+	}
+	// syncedBefore: on every path to the call the field is in sync with the Tier
+	// value (or, failing that, the caller was itself handed the Tier value by
+	// callers that all were in sync).
+	var syncedBefore func(ci ssa.CallInstruction, fv *types.Var, depth int) bool
+	syncedBefore = func(ci ssa.CallInstruction, fv *types.Var, depth int) bool {
+		g := ci.Parent()
+		if w.judge(g, []ssa.Instruction{ci}, fv).clean() {
+			return true
+		}
+		if depth >= 3 || len(incoming[g]) == 0 {
+			return false
+		}
+		for _, up := range incoming[g] {
+			if !syncedBefore(up, fv, depth+1) {
+				return false
+			}
+		}
+		return true
+	}
+
+	n := 0
+	for _, fn := range fns {
+		targets := own[fn]
 		if len(targets) == 0 {
 			continue
 		}
@@ -1484,33 +1608,43 @@ func c03KeySync(c *Ctx, p *Prog) {
 			n++
 			key := "C03.keysync/" + fnName(fn) + "/TierInfo." + fv.Name()
 			site := p.Pos(targets[0].Pos())
-			ks := c03NewKeySync(fn, targets, fv, fieldNamed(tierST, fv.Name()), tierST, storesVia)
-			if ks.problem != "" {
-				c.Undecided(key, site, "%s: %s", fnName(fn), ks.problem)
+			v := w.judge(fn, targets, fv)
+			if v.problem != "" {
+				c.Undecided(key, site, "%s: %s", fnName(fn), v.problem)
 				continue
 			}
-			if len(ks.syncs) == 0 {
-				c.Violate(key, site, "%s (re-)inserts the tier's sort key while a Tier value is at hand but never stores TierInfo.%s from it: the key keeps whatever %s the TierInfo had before the update", fnName(fn), fv.Name(), fv.Name())
-				continue
+			if !v.clean() && len(v.und) == 0 && len(incoming[fn]) > 0 {
+				// the store may have been lifted to the call sites
+				all := true
+				var callers []string
+				for _, ci := range incoming[fn] {
+					callers = append(callers, fnName(ci.Parent()))
+					if !syncedBefore(ci, fv, 0) {
+						all = false
+					}
+				}
+				if all {
+					c.Ok(key, site, "every caller that hands the Tier value to %s (%s) has TierInfo.%s in sync with it on every path to the call", fnName(fn), strings.Join(callers, ", "), fv.Name())
+					continue
+				}
+				v.notes = append(v.notes, fmt.Sprintf("the caller(s) %s do not synchronise TierInfo.%s on every path before handing the Tier value over either", strings.Join(callers, ", "), fv.Name()))
 			}
-			var bad, und []string
-			for _, t := range targets {
-				b, u := ks.check(t)
-				for _, s := range b {
-					bad = append(bad, fmt.Sprintf("insertion at %s reached %s", p.Pos(t.Pos()), s))
-				}
-				for _, s := range u {
-					und = append(und, fmt.Sprintf("insertion at %s: %s", p.Pos(t.Pos()), s))
-				}
+			notes := ""
+			if len(v.notes) > 0 {
+				notes = " [" + strings.Join(v.notes, "; ") + "]"
 			}
 			switch {
-			case len(bad) > 0:
-				c.Violate(key, site, "%s re-inserts the tier's sort key on a path where TierInfo.%s was neither stored from %s nor shown to equal it — %s: an update that changes %s on that path is ignored and the tier keeps its stale position among the sorted tiers",
-					fnName(fn), fv.Name(), ks.srcDesc, strings.Join(bad, "; "), fv.Name())
-			case len(und) > 0:
-				c.Undecided(key, site, "%s", strings.Join(und, "; "))
+			case v.never && len(v.notes) > 0:
+				c.Violate(key, site, "%s (re-)inserts the tier's sort key while a Tier value is at hand, but TierInfo.%s is not brought in sync with it on every path before — %s: an update that changes %s on such a path is ignored and the tier keeps its stale position among the sorted tiers", fnName(fn), fv.Name(), strings.Join(v.notes, "; "), fv.Name())
+			case v.never:
+				c.Violate(key, site, "%s (re-)inserts the tier's sort key while a Tier value is at hand but never stores TierInfo.%s from it: the key keeps whatever %s the TierInfo had before the update%s", fnName(fn), fv.Name(), fv.Name(), notes)
+			case len(v.bad) > 0:
+				c.Violate(key, site, "%s re-inserts the tier's sort key on a path where TierInfo.%s was neither stored from %s nor shown to equal it — %s: an update that changes %s on that path is ignored and the tier keeps its stale position among the sorted tiers%s",
+					fnName(fn), fv.Name(), v.srcDesc, strings.Join(v.bad, "; "), fv.Name(), notes)
+			case len(v.und) > 0:
+				c.Undecided(key, site, "%s%s", strings.Join(v.und, "; "), notes)
 			default:
-				c.Ok(key, site, "on every path to %d key insertion(s) TierInfo.%s is stored from %s or already equal to it", len(targets), fv.Name(), ks.srcDesc)
+				c.Ok(key, site, "on every path to %d key insertion(s) TierInfo.%s is stored from %s or already equal to it", len(targets), fv.Name(), v.srcDesc)
 			}
 		}
 	}
@@ -1522,13 +1656,52 @@ func c03KeySync(c *Ctx, p *Prog) {
 // c03KS decides, for one function and one TierInfo field, whether a path that
 // bypasses every store of the field establishes "field == source".
 type c03KS struct {
-	fn       *ssa.Function
-	fv       *types.Var     // TierInfo.<F>
-	srcField *types.Var     // model.Tier.<F> (nil: constant source)
-	srcConst constant.Value // constant source
-	srcDesc  string
-	syncs    map[ssa.Instruction]bool
-	problem  string
+	w         *c03KSWorld
+	fn        *ssa.Function
+	fv        *types.Var     // TierInfo.<F>
+	tierField *types.Var     // model.Tier.<F> (nil: the Tier value has no such field)
+	srcField  *types.Var     // model.Tier.<F> (nil: constant source)
+	srcConst  constant.Value // constant source
+	srcDesc   string
+	// bound: values (parameters of a helper) that carry the field's ('f') or the
+	// source's ('s') value, mapped from the arguments of the call being followed
+	bound   map[ssa.Value]byte
+	depth   int
+	syncs   map[ssa.Instruction]bool
+	notes   []string
+	problem string
+}
+
+func (w *c03KSWorld) newKS(fn *ssa.Function, fv *types.Var, depth int) *c03KS {
+	ks := &c03KS{w: w, fn: fn, fv: fv, depth: depth, syncs: map[ssa.Instruction]bool{}, bound: map[ssa.Value]byte{}}
+	ks.tierField = c03FieldNamed(w.tierST, fv.Name())
+	if ks.tierField != nil {
+		ks.srcField, ks.srcDesc = ks.tierField, "Tier."+ks.tierField.Name()
+	}
+	return ks
+}
+
+// child: the decision state for helper h entered through a call with these arguments.
+func (ks *c03KS) child(h *ssa.Function, args []ssa.Value) *c03KS {
+	sub := ks.w.newKS(h, ks.fv, ks.depth+1)
+	sub.srcField, sub.srcConst, sub.srcDesc = ks.srcField, ks.srcConst, ks.srcDesc
+	for i, a := range args {
+		if i >= len(h.Params) {
+			break
+		}
+		if r, l := ks.role(a); r != 0 && l == 1 {
+			sub.bound[h.Params[i]] = r
+			continue
+		}
+		// a constant handed to a parameter of the field's type is the constant source
+		if cv, ok := constOf(a); ok && !isNilConst(a) && ks.tierField == nil && types.Identical(h.Params[i].Type(), ks.fv.Type()) {
+			if sub.srcConst == nil || constant.Compare(sub.srcConst, token.EQL, cv) {
+				sub.srcConst, sub.srcDesc = cv, "the constant "+cv.ExactString()
+				sub.bound[h.Params[i]] = 's'
+			}
+		}
+	}
+	return sub
 }
 
 // c03Level: v reads struct field fv; level 1 = the field's value, 2 = the
@@ -1553,18 +1726,58 @@ func c03Level(v ssa.Value) (*types.Var, int) {
 	}
 }
 
-func c03NewKeySync(fn *ssa.Function, targets []ssa.Instruction, fv, tierField *types.Var, tierST *types.Struct, storesVia func(*ssa.Function, *types.Var, int) bool) *c03KS {
-	ks := &c03KS{fn: fn, fv: fv, syncs: map[ssa.Instruction]bool{}}
-	isTierField := func(v *types.Var) bool {
-		for i := 0; i < tierST.NumFields(); i++ {
-			if tierST.Field(i) == v {
-				return true
-			}
+// role: v carries the TierInfo field ('f') or its source ('s'); level 1 = the
+// value itself, 2 = the pointee of a pointer-typed value.
+func (ks *c03KS) role(v ssa.Value) (byte, int) {
+	n := 0
+	of := func(f *types.Var) byte {
+		switch {
+		case f == nil:
+			return 0
+		case f == ks.fv:
+			return 'f'
+		case ks.srcField != nil && f == ks.srcField:
+			return 's'
 		}
-		return false
+		return 0
 	}
-	allInstrs(fn, false, func(_ *ssa.Function, in ssa.Instruction) {
-		// only what can happen before one of the insertions matters
+	for {
+		if r, ok := ks.bound[v]; ok {
+			return r, n + 1
+		}
+		switch x := v.(type) {
+		case *ssa.UnOp:
+			if x.Op != token.MUL {
+				return 0, 0
+			}
+			n++
+			v = x.X
+		case *ssa.FieldAddr:
+			return of(structField(x.X.Type(), x.Field)), n
+		case *ssa.Field:
+			return of(structField(x.X.Type(), x.Field)), n + 1
+		default:
+			return 0, 0
+		}
+	}
+}
+
+func (ks *c03KS) isTierField(v *types.Var) bool {
+	for i := 0; i < ks.w.tierST.NumFields(); i++ {
+		if ks.w.tierST.Field(i) == v {
+			return true
+		}
+	}
+	return false
+}
+
+// scan collects the instructions of fn after which the field is in sync with its
+// source: stores of the field from the source, and calls of helpers that do so
+// on all of their paths.
+func (ks *c03KS) scan(targets []ssa.Instruction) {
+	fv := ks.fv
+	allInstrs(ks.fn, false, func(_ *ssa.Function, in ssa.Instruction) {
+		// only what can happen before one of the targets matters
 		relevant := false
 		for _, t := range targets {
 			if in != t && instrReaches(in, t) {
@@ -1583,6 +1796,10 @@ func c03NewKeySync(fn *ssa.Function, targets []ssa.Instruction, fv, tierField *t
 			if _, fresh := fa.X.(*ssa.Alloc); fresh {
 				return
 			}
+			if r, ok := ks.bound[x.Val]; ok && r == 's' {
+				ks.syncs[in] = true
+				return
+			}
 			if cv, ok := constOf(x.Val); ok && !isNilConst(x.Val) {
 				if ks.srcField != nil || (ks.srcConst != nil && !constant.Compare(ks.srcConst, token.EQL, cv)) {
 					ks.problem = "TierInfo." + fv.Name() + " is stored from different sources"
@@ -1592,7 +1809,7 @@ func c03NewKeySync(fn *ssa.Function, targets []ssa.Instruction, fv, tierField *t
 				return
 			}
 			sf, lvl := c03Level(x.Val)
-			if sf == nil || lvl != 1 || !isTierField(sf) || (tierField != nil && sf != tierField) {
+			if sf == nil || lvl != 1 || !ks.isTierField(sf) || (ks.tierField != nil && sf != ks.tierField) {
 				ks.problem = fmt.Sprintf("TierInfo.%s is stored from %s, which is not a constant or the Tier value's field", fv.Name(), path(x.Val))
 				return
 			}
@@ -1601,16 +1818,69 @@ func c03NewKeySync(fn *ssa.Function, targets []ssa.Instruction, fv, tierField *t
 			}
 			ks.srcField, ks.srcDesc = sf, "Tier."+sf.Name()
 			ks.syncs[in] = true
-		case ssa.CallInstruction:
-			if storesVia(calleeFn(x.Common()), fv, 1) {
-				ks.syncs[in] = true
-				if ks.srcDesc == "" {
-					ks.srcDesc = "the Tier value (in " + fnName(calleeFn(x.Common())) + ")"
-				}
+		case *ssa.Call:
+			h := calleeFn(x.Common())
+			if !ks.w.storesVia(h, fv, 1) {
+				return
 			}
+			ks.followHelper(x, h)
 		}
 	})
-	return ks
+}
+
+// followHelper: the call of helper h (which stores the field somewhere) leaves
+// the field in sync iff every path of h from entry to a return does.
+func (ks *c03KS) followHelper(call *ssa.Call, h *ssa.Function) {
+	if ks.depth >= 3 || h == ks.fn {
+		ks.problem = fmt.Sprintf("TierInfo.%s is stored by %s, more than three helper calls down", ks.fv.Name(), fnName(h))
+		return
+	}
+	sub := ks.child(h, call.Common().Args)
+	var rets []ssa.Instruction
+	for _, r := range returnsOf(h) {
+		if !isPanicBlock(r.Block()) {
+			rets = append(rets, r)
+		}
+	}
+	sub.scan(rets)
+	if sub.problem != "" {
+		ks.problem = "in " + fnName(h) + ": " + sub.problem
+		return
+	}
+	ks.notes = append(ks.notes, sub.notes...)
+	if len(sub.syncs) == 0 {
+		ks.notes = append(ks.notes, fmt.Sprintf("%s does not store TierInfo.%s from %s before it returns", fnName(h), ks.fv.Name(), c03Or(sub.srcDesc, "the Tier value")))
+		return
+	}
+	var bad, und []string
+	for _, r := range rets {
+		b, u := sub.check(r)
+		bad = append(bad, b...)
+		und = append(und, u...)
+	}
+	switch {
+	case len(bad) > 0:
+		sort.Strings(bad)
+		ks.notes = append(ks.notes, fmt.Sprintf("%s returns without having stored TierInfo.%s from %s %s", fnName(h), ks.fv.Name(), c03Or(sub.srcDesc, "its source"), bad[0]))
+	case len(und) > 0:
+		ks.problem = "in " + fnName(h) + ": " + und[0]
+	default:
+		ks.syncs[call] = true
+		// what the helper found out about the source holds for the caller too
+		if ks.srcField == nil && ks.srcConst == nil {
+			ks.srcField, ks.srcConst = sub.srcField, sub.srcConst
+		}
+		if ks.srcDesc == "" {
+			ks.srcDesc = c03Or(sub.srcDesc, "the Tier value") + " (in " + fnName(h) + ")"
+		}
+	}
+}
+
+func c03Or(a, b string) string {
+	if a != "" {
+		return a
+	}
+	return b
 }
 
 // atoms of the little decision procedure
@@ -1649,11 +1919,10 @@ func (ks *c03KS) form(v ssa.Value, pred map[*ssa.BasicBlock]*ssa.BasicBlock) c03
 		}
 		v = phi.Edges[idx]
 	}
-	isFld := func(x ssa.Value, lvl int) bool { f, l := c03Level(x); return f == ks.fv && l == lvl }
+	isFld := func(x ssa.Value, lvl int) bool { r, l := ks.role(x); return r == 'f' && l == lvl }
 	isSrc := func(x ssa.Value, lvl int) bool {
-		if ks.srcField != nil {
-			f, l := c03Level(x)
-			return f == ks.srcField && l == lvl
+		if r, l := ks.role(x); r == 's' {
+			return l == lvl
 		}
 		if ks.srcConst != nil && lvl == 1 {
 			cv, ok := constOf(x)
@@ -1673,6 +1942,11 @@ func (ks *c03KS) form(v ssa.Value, pred map[*ssa.BasicBlock]*ssa.BasicBlock) c03
 			return func(env int) (bool, bool) { b, k := f(env); return !b, k }
 		}
 		// a bool field tested directly against a constant source
+		if isFld(x, 1) && ks.srcConst != nil && ks.srcConst.Kind() == constant.Bool {
+			want := constant.BoolVal(ks.srcConst)
+			return func(env int) (bool, bool) { return (env&c03AtomPtrEq != 0) == want, true }
+		}
+	case *ssa.Parameter:
 		if isFld(x, 1) && ks.srcConst != nil && ks.srcConst.Kind() == constant.Bool {
 			want := constant.BoolVal(ks.srcConst)
 			return func(env int) (bool, bool) { return (env&c03AtomPtrEq != 0) == want, true }
@@ -1705,8 +1979,107 @@ func (ks *c03KS) form(v ssa.Value, pred map[*ssa.BasicBlock]*ssa.BasicBlock) c03
 				return a == b, ka && kb
 			})
 		}
+	case *ssa.Call:
+		if f := ks.callForm(x); f != nil {
+			return f
+		}
 	}
 	return unknown
+}
+
+// callForm: the formula of a condition computed by a felix/calc helper — the
+// helper's acyclic paths are enumerated with its parameters mapped from the
+// call's arguments; the result under an assignment of the atoms is the result
+// returned on the path whose branch conditions that assignment satisfies.  nil
+// when a branch or result of the helper says nothing about field and source.
+func (ks *c03KS) callForm(call *ssa.Call) c03Form {
+	h := calleeFn(call.Common())
+	if !ks.w.inCalc(h) || ks.depth >= 3 || h == ks.fn {
+		return nil
+	}
+	res := h.Signature.Results()
+	if res.Len() != 1 {
+		return nil
+	}
+	if b, ok := res.At(0).Type().Underlying().(*types.Basic); !ok || b.Info()&types.IsBoolean == 0 {
+		return nil
+	}
+	sub := ks.child(h, call.Common().Args)
+	type pth struct {
+		conds []c03Form
+		res   c03Form
+	}
+	var paths []pth
+	ok := true
+	onPath := map[*ssa.BasicBlock]bool{}
+	pred := map[*ssa.BasicBlock]*ssa.BasicBlock{}
+	var conds []c03Form
+	var walk func(b *ssa.BasicBlock)
+	follow := func(from, to *ssa.BasicBlock) {
+		old, had := pred[to]
+		pred[to] = from
+		walk(to)
+		if had {
+			pred[to] = old
+		} else {
+			delete(pred, to)
+		}
+	}
+	walk = func(b *ssa.BasicBlock) {
+		if !ok || isPanicBlock(b) {
+			return
+		}
+		if onPath[b] || len(paths) > 256 {
+			ok = false
+			return
+		}
+		onPath[b] = true
+		defer func() { onPath[b] = false }()
+		switch t := b.Instrs[len(b.Instrs)-1].(type) {
+		case *ssa.Return:
+			rf := sub.form(t.Results[0], pred)
+			if _, known := rf(0); !known {
+				ok = false
+				return
+			}
+			paths = append(paths, pth{append([]c03Form(nil), conds...), rf})
+		case *ssa.If:
+			f := sub.form(t.Cond, pred)
+			if _, known := f(0); !known {
+				ok = false
+				return
+			}
+			for k, s := range b.Succs {
+				want := k == 0
+				conds = append(conds, func(env int) (bool, bool) { v, kn := f(env); return v == want, kn })
+				follow(b, s)
+				conds = conds[:len(conds)-1]
+			}
+		default:
+			for _, s := range b.Succs {
+				follow(b, s)
+			}
+		}
+	}
+	walk(h.Blocks[0])
+	if !ok || len(paths) == 0 {
+		return nil
+	}
+	return func(env int) (bool, bool) {
+		for _, p := range paths {
+			taken := true
+			for _, c := range p.conds {
+				if v, _ := c(env); !v {
+					taken = false
+					break
+				}
+			}
+			if taken {
+				return p.res(env)
+			}
+		}
+		return false, true
+	}
 }
 
 // describe renders a branch condition with the truth value it has on the path.
@@ -1716,12 +2089,13 @@ func (ks *c03KS) describe(cond ssa.Value, val bool) string {
 		if isNilConst(x) {
 			return "nil"
 		}
-		if f, l := c03Level(x); f != nil && (l == 1 || l == 2) {
-			pre := map[bool]string{true: "TierInfo.", false: "Tier."}[f == ks.fv]
-			if f != ks.fv && f != ks.srcField {
-				return path(x)
+		if r, l := ks.role(x); r != 0 && (l == 1 || l == 2) {
+			if r == 'f' {
+				return strings.Repeat("*", l-1) + "TierInfo." + ks.fv.Name()
 			}
-			return strings.Repeat("*", l-1) + pre + f.Name()
+			if ks.srcField != nil {
+				return strings.Repeat("*", l-1) + "Tier." + ks.srcField.Name()
+			}
 		}
 		return path(x)
 	}
@@ -1737,13 +2111,19 @@ func (ks *c03KS) describe(cond ssa.Value, val bool) string {
 	if _, isPhi := c.(*ssa.Phi); isPhi {
 		return fmt.Sprintf("a previously computed comparison result is %v", pol)
 	}
+	if call, isCall := c.(*ssa.Call); isCall {
+		if h := calleeFn(call.Common()); h != nil {
+			return fmt.Sprintf("%s(…) is %v", fnName(h), pol)
+		}
+	}
 	if pol {
 		return name(c)
 	}
 	return "!(" + name(c) + ")"
 }
 
-// mentionsBoth: v is the result of a call that is handed both the field and the source.
+// mentionsBoth: v is the result of a call that is handed both the field and the
+// source (their values, or the TierInfo and the Tier value they live in).
 func (ks *c03KS) mentionsBoth(v ssa.Value) bool {
 	v, _ = stripNot(v, true)
 	call, ok := v.(*ssa.Call)
@@ -1752,13 +2132,19 @@ func (ks *c03KS) mentionsBoth(v ssa.Value) bool {
 	}
 	var f, s bool
 	for _, a := range call.Common().Args {
-		if fv, l := c03Level(a); l == 1 {
-			if fv == ks.fv {
+		if r, l := ks.role(a); l == 1 {
+			if r == 'f' {
 				f = true
 			}
-			if ks.srcField != nil && fv == ks.srcField {
+			if r == 's' {
 				s = true
 			}
+		}
+		if ks.w.isPtrTo(a.Type(), ks.w.tiTN) {
+			f = true
+		}
+		if ks.w.isTierPtr(a.Type()) {
+			s = true
 		}
 	}
 	return f && s
@@ -1775,10 +2161,6 @@ func (ks *c03KS) check(target ssa.Instruction) (bad, undecided []string) {
 		if b == tb || blockReach(b)[tb] {
 			canReach[b] = true
 		}
-	}
-	type edge struct {
-		cond ssa.Value
-		pol  bool
 	}
 	seenBad := map[string]bool{}
 	nPaths := 0
